@@ -1,4 +1,4 @@
-\* 1 peer, wire side: 5 API operations incl. repeated cancels, queue capacity 1, 2 drops, gate, held stream open, outbound reset, disconnect
+\* seeded: AcceptFrom asked before the subscription bookkeeping (announcements of a graylisted peer dropped): P_C05_ListPeers MUST fail
 SPECIFICATION Spec
 CONSTANTS
   p1 = p1
@@ -6,15 +6,16 @@ CONSTANTS
   T2 = T2
   Peers <- MCPeers
   Topics <- MCTopics
+  p2 = p2
   Cap = 1
-  MaxOps = 5
-  MaxDrops = 2
-  MaxResetOut = 1
-  MaxResetIn = 0
+  MaxOps = 0
+  MaxDrops = 0
+  MaxResetOut = 0
+  MaxResetIn = 1
   MaxDisc = 1
-  MaxGate = 1
-  MaxHold = 1
-  MaxRemote = 0
+  MaxGate = 0
+  MaxHold = 0
+  MaxRemote = 2
   MaxRef = 2
   AllowFanout = FALSE
   FixD12 = TRUE
@@ -22,18 +23,17 @@ CONSTANTS
   RetryFanoutAware = TRUE
   ClosedOrdered = TRUE
   DupClears = TRUE
-  MaxDup = 0
-  AllowRepeat = TRUE
+  MaxDup = 1
+  AllowRepeat = FALSE
   CancelIdempotent = TRUE
   RelayCancelIdempotent = TRUE
-  SubsBeforeAccept = TRUE
-  MaxAcc = 0
+  SubsBeforeAccept = FALSE
+  MaxAcc = 2
 INVARIANT TypeOK
 INVARIANT P_C05_WireTruth
 INVARIANT P_C05_ListPeers
 INVARIANT P_C05_NoSpuriousAnnounce
 INVARIANT P_C05_Settles
-INVARIANT HandlesMatch
 CONSTRAINT Bound
 SYMMETRY Sym
 CHECK_DEADLOCK FALSE
